@@ -179,7 +179,9 @@ def _rep_zip:
         | {name: (.file_name|_s), size: ($r.central_directories[$i].uncompressed_size), payload: ((.uncompressed // .compressed) | _b),
            h: ["cdname=" + ($r.central_directories[$i].file_name|_s), "method=" + (.compression_method|_a),
                "csize=" + ($r.central_directories[$i].compressed_size|_s), "datadesc=" + (.flags.data_descriptor|_s),
-               "ddsize=" + (if .data_indicator then (.data_indicator.uncompressed_size|_s) else "-" end)]}]
+               "ddsize=" + (if .data_indicator then (.data_indicator.uncompressed_size|_s) else "-" end),
+               "moddate=" + (.last_modification | "\(.year|_s)-\(.month|_s)-\(.day|_s) \(.hour|_s):\(.minute|_s):\(.second|_s)"),
+               "cdmoddate=" + ($r.central_directories[$i].last_modification | "\(.year|_s)-\(.month|_s)-\(.day|_s)")]}]
     , hdr: ["comment=" + (.end_of_central_directory_record.comment|_s), "records=" + (.end_of_central_directory_record.nr_of_central_directory_records|_s)]
     , marks: [.local_files[]? | (if .data_indicator then .data_indicator.crc32_uncompressed else .crc32_uncompressed end) | _mark] };
 def _rep_tar:
@@ -340,6 +342,11 @@ func has(opt []string, s string) bool {
 
 var fixedTime = time.Unix(1700000000, 0).UTC()
 
+var zipModTimes = []time.Time{
+	time.Date(1980, 1, 1, 0, 0, 0, 0, time.UTC), time.Date(2023, 11, 14, 22, 13, 20, 0, time.UTC), time.Date(2043, 12, 31, 23, 59, 58, 0, time.UTC),
+	time.Date(2044, 1, 1, 0, 0, 2, 0, time.UTC), time.Date(2107, 12, 31, 12, 30, 30, 0, time.UTC), time.Date(2061, 7, 28, 9, 7, 4, 0, time.UTC),
+}
+
 func buildGzip(rng *rand.Rand, n, p int, method string, opt []string) built {
 	var b built
 	level := map[string]int{"store": gzip.NoCompression, "fast": gzip.BestSpeed, "default": gzip.DefaultCompression, "best": gzip.BestCompression, "huffman": gzip.HuffmanOnly}[method]
@@ -402,7 +409,10 @@ func buildZip(rng *rand.Rand, n, p int, method, nameClass string, opt []string) 
 	for i := 1; i <= n; i++ {
 		pl := makePayload(rng, payloadOf(p, i))
 		name := makeName(nameClass, i, false)
-		fh := &zip.FileHeader{Name: name, Method: zm, Modified: fixedTime}
+		// modification dates across the whole MS-DOS range (1980..2107), one class per member position
+		mod := zipModTimes[(i+n)%len(zipModTimes)]
+		fh := &zip.FileHeader{Name: name, Method: zm}
+		fh.SetModTime(mod) // also fills the legacy MS-DOS fields, which CreateRaw writes as given
 		if has(opt, "datadesc") {
 			fw, err := w.CreateHeader(fh) // streaming: sizes and crc follow the data in a data descriptor
 			if err != nil {
@@ -447,8 +457,11 @@ func buildZip(rng *rand.Rand, n, p int, method, nameClass string, opt []string) 
 		cs := int(f.CompressedSize64)
 		lh := int(off) - 30 - len(f.Name) - len(f.Extra)
 		dd := f.Flags&8 != 0
+		mt := zipModTimes[(i+1+n)%len(zipModTimes)] // what the writer was given for member i+1 (DOS time: 2 s resolution, all values even)
 		b.members[i].h = []string{"cdname=" + f.Name, fmt.Sprintf("method=%d", f.Method),
-			fmt.Sprintf("csize=%d", cs), fmt.Sprintf("datadesc=%v", dd), "ddsize=-"}
+			fmt.Sprintf("csize=%d", cs), fmt.Sprintf("datadesc=%v", dd), "ddsize=-",
+			fmt.Sprintf("moddate=%d-%d-%d %d:%d:%d", mt.Year(), int(mt.Month()), mt.Day(), mt.Hour(), mt.Minute(), mt.Second()),
+			fmt.Sprintf("cdmoddate=%d-%d-%d", mt.Year(), int(mt.Month()), mt.Day())}
 		if dd {
 			b.members[i].h[4] = fmt.Sprintf("ddsize=%d", len(b.members[i].payload))
 			b.checksum = append(b.checksum, span{int(off) + cs + 4, 4})
